@@ -1,7 +1,9 @@
 package udpmux
 
 import (
+	"errors"
 	"fmt"
+	"io"
 	"net"
 	"net/netip"
 	"sort"
@@ -343,6 +345,39 @@ func TestMuxRoute(t *testing.T) {
 						logEv("DRead", map[string]any{"x": x, "kd": kd})
 						ok = true
 					}
+				case "URead":
+					// the user of connection c reads once, while whatever else is under way stays parked at its gate: with a buffer
+					// that holds any datagram, or with one that is too short for every datagram the driver injects
+					c, form := atoi(a[0]), a[1]
+					if !conc || c < 1 || c > len(conns) || hclosed[c] {
+						break
+					}
+					if _, _, queued := ice.VerifMuxConnInfo(conns[c-1]); len(queued) == 0 {
+						break
+					}
+					buf := make([]byte, 1500)
+					if form == "short" {
+						buf = buf[:4]
+					}
+					h := handles[c-1]
+					_ = h.SetReadDeadline(time.Now())
+					n, ra, err := h.ReadFrom(buf)
+					rx := []map[string]any{}
+					res := "ok"
+					switch {
+					case errors.Is(err, io.ErrShortBuffer):
+						res = "short"
+					case err != nil:
+						res = err.Error()
+					default:
+						src := "?"
+						if ua, isUDP := ra.(*net.UDPAddr); isUDP {
+							src = mrNameOf(ua.AddrPort())
+						}
+						rx = append(rx, map[string]any{"c": c, "n": decode(buf[:n]), "src": src})
+					}
+					logEv("URead", map[string]any{"c": c, "form": form, "res": res, "rx": rx})
+					ok = true
 				case "DLookup", "DUfrag", "DEnq", "DPut":
 					ok = conc && mrDEvent[s.at("d")] == name && gated("d")
 				case "RStart":
